@@ -1,0 +1,14 @@
+//go:build verif
+
+package segmenter
+
+// VerifAttributes returns the break attributes computed by the last Init call
+// (one per position 0..len(text)), as raw flag bytes:
+// 1 = line boundary, 2 = mandatory line boundary, 4 = grapheme boundary, 8 = word boundary.
+func (seg *Segmenter) VerifAttributes() []uint8 {
+	out := make([]uint8, len(seg.attributes))
+	for i, a := range seg.attributes {
+		out[i] = uint8(a)
+	}
+	return out
+}
